@@ -105,6 +105,9 @@ class Ex:
     def __abs__(self):
         return Ex(abs(self.v))
 
+    def __round__(self, ndigits=None):
+        return Ex(round(self.v, ndigits))  # exact: Fraction rounds half to even, as float does
+
     def __lt__(self, o):
         return self.v < _fr(o)
 
